@@ -358,7 +358,7 @@ SPECS["C03"] = {
             {"name": "VerifC03_VoidThrows", "quick": {"params": [0], "bound": 1}, "thorough": {"params": [0], "bound": 2}, "expect_reach": ["end", "void-ok", "void-declared-1", "void-declared-2"]},
             {"name": "VerifC03_PingFire", "quick": {"params": [0, 1], "bound": 1}, "thorough": {"params": [0, 1], "bound": 2}, "expect_reach": ["end", "ping", "fire"]},
             {"name": "VerifC03_ConcurrentCalls", "native": False, "flags": ["-preempt", "1"], "quick": {"params": [0]}, "thorough": {"params": [0], "flags": ["-preempt", "2"]}},
-            {"name": "VerifC03_AdapterCalls", "native": False, "flags": ["-preempt", "1", "-race"], "quick": {"params": [0, 1], "procs": 2}, "thorough": {"params": [0, 1], "procs": 2, "flags": ["-preempt", "2", "-race", "-par", "4"]}},
+            {"name": "VerifC03_AdapterCalls", "native": False, "flags": ["-preempt", "1", "-race"], "quick": {"params": [0, 1], "procs": 2}, "thorough": {"params": [0, 1], "procs": 2}},
             {"name": "VerifC03_OversizeReply", "native": False, "quick": {"params": [0]}, "thorough": {"params": [0]}},
             {"name": "VerifC03_Names", "quick": {"params": [0, 1, 2, 3], "bound": 1}, "thorough": {"params": [0, 1, 2, 3], "bound": 2}, "expect_reach": ["end", "out-of-order-ids", "typedef-enum-return"]},
         ]},
@@ -403,7 +403,7 @@ for _k, _t in _MORE.items():
 # session 4 (round 4 of independently produced changes)
 _MORE4 = {
     "C02": " Session 4: a typedef NAME declared in both the including and the included file with different base types (i32 / i64; struct Tagged, c02_base.Ref) in the recursive run; a catalogue program the compiler REJECTS with its own diagnostic twice in a row is a reproduced violation (the catalogue is valid IDL); union fields with declared defaults are in the catalogue (open finding F25: the value equal to the default is rejected by the generated Read).",
-    "C03": " Session 4: VerifC03_AdapterCalls: two goroutines call through one generated client over the REAL adapter transport (framed stream, read loop, registry) with a peer that answers one by one or both replies back to back, the second reply no longer than the first: each caller gets the value for its own argument or TIMED_OUT, never another call's value (race monitor on).",
+    "C03": " Session 4: VerifC03_AdapterCalls: two goroutines call through one generated client over the REAL adapter transport (framed stream, read loop, registry) with a peer that answers one by one or both replies back to back, the second reply no longer than the first: each caller gets the value for its own argument or TIMED_OUT, never another call's value (race monitor on; delay bound 1 in both tiers: bound 2 did not finish in 7 min).",
     "C04": " Session 4: VerifC04_LargeBlock: one header value of 250 / 1030 / 4100 bytes (thorough: also 1010, 4090, 40000 - below the engine's 65536-element allocation clamp) with a 2-byte symbolic tail next to a small header: layout, stream reader over a transport whose RemainingBytes() is an ARBITRARY 64-bit value (buffered and compressing transports under-report), frame reader.",
     "C05": " Session 4: VerifC05_StompBurst: a burst of 3..4 (thorough 5, same delay bound 1: bound 2 did not finish in 15 min) well-formed STOMP messages over a connection model shaped like go-stomp (ONE process loop serving the bounded write channel - acknowledgements - and the inbound frames with a blocking hand-over to the bounded subscription channel; capacities 1 instead of 20/20/16): every message handled and acknowledged, no deadlock.",
     "C06": " Session 4: VerifC06_ReopenedStream: the inbound stream ends after ANY number of bytes of a frame (inside the size prefix or the body), optionally after a complete exchange; the transport is reopened and the response to a fresh request - the first bytes of the new stream - is delivered.",
